@@ -486,6 +486,7 @@ static void run1(const Eigen::Matrix<S, N, N>& m, Tol tol) {
 
 // ---------------------------------------------------------------- families
 template <int N> static Tol herm_tol_real() { return TIGHT; }
+template <class S, int N> static void chk_move_goldstone(const Eigen::Matrix<S, N, N>& m);
 
 template <int N> static void fam_svd_real(const Eigen::Matrix<double, N, N>& m) {
    run2<svd, double, double, N, N>(m, TIGHT);
@@ -517,10 +518,44 @@ template <int N> static void fam_sym_cplx(const Eigen::Matrix<cd, N, N>& m) {
 template <int N> static void fam_herm_real(const Eigen::Matrix<double, N, N>& m) {
    run1<diagonalize_hermitian, double, double, N>(m, herm_tol_real<N>());
    run1<fs_diagonalize_hermitian, double, double, N>(m, herm_tol_real<N>());
+   chk_move_goldstone<double, N>(m);
 }
 template <int N> static void fam_herm_cplx(const Eigen::Matrix<cd, N, N>& m) {
    run1<diagonalize_hermitian, cd, cd, N>(m, TIGHT);     // complex: Eigen falls back to the QR solver
    run1<fs_diagonalize_hermitian, cd, cd, N>(m, TIGHT);
+   chk_move_goldstone<cd, N>(m);
+}
+
+// move_goldstone_to on the result of fs_diagonalize_hermitian, N = 2..4, real and complex: the reference mass is every
+// eigenvalue in turn (so the matching entry sits at every position, ties included) and 0; every target index.
+// Oracle: m = z^+ diag(v) z still holds, z unitary, v the same multiset, v(idx) closest to the reference mass,
+// relative order of the other entries preserved.
+template <class S, int N> static void chk_move_goldstone(const Eigen::Matrix<S, N, N>& m) {
+   if (fresh_child) return;
+   char gb[64]; std::snprintf(gb, sizeof gb, "move_goldstone_to/%s/%dx%d", sname<S>::n(), N, N);
+   const std::string g = gb;
+   Grp& G = grps[g]; G.n++;
+   const Mat mm = toMat(m); const LD nm = fro(mm);
+   Eigen::Array<double, N, 1> w; Eigen::Matrix<S, N, N> z;
+   gm2calc::fs_diagonalize_hermitian<double, S, N>(m, w, z);
+   for (int p = 0; p <= N; p++) {
+      const double mass = p < N ? w(p) : 0.0;
+      int pos = 0; for (int i = 1; i < N; i++) if (std::abs(w(i) - mass) < std::abs(w(pos) - mass)) pos = i;   // first closest
+      for (int idx = 0; idx < N; idx++) {
+         Eigen::Array<double, N, 1> w2 = w; Eigen::Matrix<S, N, N> z2 = z;
+         gm2calc::move_goldstone_to(idx, mass, w2, z2);
+         char cls[32]; std::snprintf(cls, sizeof cls, "move%+d", idx - pos); G.cls[cls]++;
+         for (int i = 0; i < N; i++) if (std::abs(w2(i) - mass) < std::abs(w2(idx) - mass)) { fail(g, "not-closest-at-idx", w2(idx), mm); break; }
+         std::vector<double> rest, rest2;
+         for (int i = 0; i < N; i++) { if (i != pos) rest.push_back(w(i)); if (i != idx) rest2.push_back(w2(i)); }
+         if (!(w2(idx) == w(pos) && rest == rest2)) fail(g, "values-not-same-multiset-in-order", idx - pos, mm);
+         Mat Z = toMat(z2);
+         LD e = recon_err(mm, adj(Z), vec(w2), Z);
+         if (!(e <= (LD)1e-12 * nm)) fail(g, "reconstruction", nm > 0 ? (double)(e / nm) : (double)e, mm);
+         double ue = (double)unit_err(Z);
+         if (!(ue <= 1e-12)) fail(g, "unitarity", ue, mm);
+      }
+   }
 }
 
 // gm2_eigen_utils.hpp: the helpers the models apply to decomposition results
